@@ -34,10 +34,11 @@ type follJob struct {
 }
 
 type rnode struct {
-	id    int
-	ch    *child
-	evlog string
-	t0    time.Time
+	id      int
+	ch      *child
+	evlog   string
+	t0      time.Time
+	startMs int64
 }
 
 func (n *rnode) alive() bool {
@@ -133,9 +134,10 @@ func (gr *group) start(id int, run int, blocked bool, env string) (*rnode, strin
 		default:
 			status = "exited"
 		}
-	case <-time.After(40 * time.Second):
+	case <-time.After(150 * time.Second):
 		status = "timeout"
 	}
+	n.startMs = time.Since(t0).Milliseconds()
 	return n, status
 }
 
@@ -336,9 +338,13 @@ func runFollowerJob(self string, job follJob, base int, emit func(RunRec)) {
 	for id := 1; id <= nReplica; id++ {
 		_, st := gr.start(id, 0, false, "")
 		if st != "READY" {
-			if isEnvFailure(st, tailFile(gr.nodes[id].ch.logf, 4000)) {
+			tl := tailFile(gr.nodes[id].ch.logf, 4000)
+			if isEnvFailure(st, tl) {
 				fail(rec, "env-failure")
+			} else if !positiveEvidence(st, tl) {
+				fail(rec, "inconclusive-slow")
 			} else {
+				rec.Log = tl
 				fail(rec, "group-start "+st)
 			}
 			return
@@ -413,6 +419,10 @@ func runFollowerJob(self string, job follJob, base int, emit func(RunRec)) {
 				rec.Log = tailFile(n.ch.logf, 6000)
 				if isEnvFailure(st, rec.Log) {
 					rec.Start = "env-failure"
+				} else if !positiveEvidence(st, rec.Log) {
+					// alive, no error in its log, not serving within the budget: a slow machine, not a failed recovery
+					rec.Log = "start status: " + st + "\n" + rec.Log
+					rec.Start = "inconclusive-slow"
 				}
 				if n.alive() {
 					n.ch.kill()
@@ -428,8 +438,9 @@ func runFollowerJob(self string, job follJob, base int, emit func(RunRec)) {
 			continue
 		}
 		rec.Start = "ready"
+		rec.StartMs = n.startMs
 		// ---- what the follower serves from its own directory ----
-		stt, ok := settle(n, 15*time.Second)
+		stt, ok := settle(n, 60*time.Second)
 		if ok {
 			// the replay hands the committed entries to the apply loop asynchronously: wait for the commit index
 			// the restart read from the WAL
@@ -457,7 +468,7 @@ func runFollowerJob(self string, job follJob, base int, emit func(RunRec)) {
 		}
 		// ---- heal: it catches up (by an incoming snapshot when the leader has compacted its log) ----
 		n.ctl("BLOCK", "BLOCKED", 10*time.Second)
-		deadline := time.Now().Add(25 * time.Second)
+		deadline := time.Now().Add(90 * time.Second)
 		rec.Converged = "timeout"
 		for time.Now().Before(deadline) {
 			if !n.alive() {
